@@ -338,6 +338,96 @@ class CoordPayload():
 
         return self
 
+    def __floordiv__(self, other):
+        """__floordiv__"""
+
+        if isinstance(other, CoordPayload):
+            ans = self.payload // other.payload
+        else:
+            ans = self.payload // other
+
+        return ans
+
+    def __rfloordiv__(self, other):
+        """__rfloordiv__"""
+
+        return other // self.payload
+
+    def __ifloordiv__(self, other):
+        """__ifloordiv__"""
+
+        if isinstance(other, CoordPayload):
+            self.payload //= other.payload
+        else:
+            self.payload //= other
+
+        return self
+
+    def __lshift__(self, other):
+        """__lshift__"""
+
+        if isinstance(other, CoordPayload):
+            ans = self.payload << other.payload
+        else:
+            ans = self.payload << other
+
+        return ans
+
+    def __rlshift__(self, other):
+        """__rlshift__"""
+
+        return other << self.payload
+
+    def __and__(self, other):
+        """__and__"""
+
+        if isinstance(other, CoordPayload):
+            ans = self.payload & other.payload
+        else:
+            ans = self.payload & other
+
+        return ans
+
+    def __rand__(self, other):
+        """__rand__"""
+
+        return other & self.payload
+
+    def __iand__(self, other):
+        """__iand__"""
+
+        if isinstance(other, CoordPayload):
+            self.payload &= other.payload
+        else:
+            self.payload &= other
+
+        return self
+
+    def __or__(self, other):
+        """__or__"""
+
+        if isinstance(other, CoordPayload):
+            ans = self.payload | other.payload
+        else:
+            ans = self.payload | other
+
+        return ans
+
+    def __ror__(self, other):
+        """__ror__"""
+
+        return other | self.payload
+
+    def __ior__(self, other):
+        """__ior__"""
+
+        if isinstance(other, CoordPayload):
+            self.payload |= other.payload
+        else:
+            self.payload |= other
+
+        return self
+
 
 #
 # Comparison operations
